@@ -22,6 +22,7 @@ import MdModel.Prelude
 import MdModel.ProcessCore
 import MdModel.Gen.ProcessConsts
 import MdModel.OpAnalysis
+import MdModel.ArgRecovery
 namespace MdModel.Process
 open MdModel
 
@@ -523,9 +524,13 @@ def splitReqs : List String → List String → List (List String)
 /-- line-protocol entry point of this model (engine: process). `kern a // b // c` answers several
     kernel requests at once (what a pipeline case asks). -/
 def handle (_engine : String) (args : List String) : String :=
+  let one (a : List String) : String :=
+    match a with
+    | "argrec" :: rest => ArgRecovery.handle rest
+    | _ => kernel a
   match args with
-  | "kern" :: rest => joinWith " // " ((splitReqs rest []).map kernel)
+  | "kern" :: rest => joinWith " // " ((splitReqs rest []).map one)
   | "opana" :: rest => OpAnalysis.handle rest
-  | _ => kernel args
+  | _ => one args
 
 end MdModel.Process
